@@ -62,9 +62,9 @@ def restricted_prims(repo: Repo) -> Set[str]:
 
 
 class Flow:
-    def __init__(self, repo: Repo):
+    def __init__(self, repo: Repo, restricted: Optional[Set[str]] = None):
         self.repo = repo
-        self.restricted = restricted_prims(repo)
+        self.restricted = set(restricted) if restricted is not None else restricted_prims(repo)
         self.by_name: Dict[str, List[FuncInfo]] = {}
         for fi in repo.iter_functions(M + '.'):
             self.by_name.setdefault(fi.name, []).append(fi)
@@ -296,8 +296,8 @@ class Flow:
         return out or [(A, here, trail + ' (never called with an argument)')]
 
 
-def findings(repo: Repo) -> Dict[str, Any]:
-    fl = Flow(repo)
+def findings(repo: Repo, restricted: Optional[Set[str]] = None) -> Dict[str, Any]:
+    fl = Flow(repo, restricted)
     sinks = fl.sinks()
     res = {'restricted': sorted(fl.restricted), 'sinks': len(sinks), 'tainted': [], 'unknown': [], 'anon': 0}
     for fi, call, prim, elts in sinks:
